@@ -238,7 +238,9 @@ def whole_swap(prog, rep):
     for bi, t in sw:
         a0 = show(strip_sites(ir.term_operand(bi, t["args"][0])))
         a1 = show(strip_sites(ir.term_operand(bi, t["args"][1])))
-        ok = a0 in ("&mut *self", "self") and a1 in ("&mut other", "&mut *other")
+        whole_self = ("&mut *self", "self")
+        whole_other = ("&mut other", "&mut *other")
+        ok = (a0 in whole_self and a1 in whole_other) or (a1 in whole_self and a0 in whole_other)
         rep.ob(rule, "swap(self, other)", ok, "the partial infos are exchanged as wholes" if ok else
                "merge swaps `%s` with `%s`: the `received` masks stay behind, so the main packet's bit is never recorded and the info cannot complete" % (a0, a1),
                b.loc(t.get("ln")))
